@@ -985,6 +985,17 @@ class Analysis:
             if sk and self.tracked(sk):
                 copy_fields = ([(k2[len(sk):], v) for k2, v in st.iv.items() if k2.startswith(sk + ".")],
                                [(k2[len(sk):], v) for k2, v in st.sym.items() if k2.startswith(sk + ".")])
+        minmax = None
+        mm = re.search(r"(?:cmp::Ord::|core::cmp::)(min|max)$|::(saturating_sub)$", name)
+        if mm and len(args) == 2:
+            ia, ib = self.op_iv(st, args[0]), self.op_iv(st, args[1])
+            if ia is not None and ib is not None:
+                if mm.group(1) == "min":
+                    minmax = (min(ia[0], ib[0]), min(ia[1], ib[1]))
+                elif mm.group(1) == "max":
+                    minmax = (max(ia[0], ib[0]), max(ia[1], ib[1]))
+                elif ia[0] >= 0 and ib[0] >= 0:
+                    minmax = (max(0, ia[0] - ib[1]), ia[1])
         new_cond = None
         summ = self.summaries.get(name)
         if summ and summ.get("ok"):
@@ -1040,7 +1051,9 @@ class Analysis:
                     st.sym[key + suf] = v
             return
         rc = self._range_contains(t)
-        if rc is not None:
+        if minmax is not None:
+            st.iv[key] = minmax
+        elif rc is not None:
             cur = st.iv.get(rc[0]) or ty_range(self.place_ty(rc[0]))
             if cur and rc[1] <= cur[0] and cur[1] <= rc[2]:
                 st.iv[key] = (1, 1)
